@@ -157,6 +157,9 @@ def normalise(s, fmt, original=None):
         p = o.get("prediction")
         if p and p.get("k") == "trajectory":
             p["traj"]["states"] = [_norm_state(x) for x in p["traj"]["states"]]
+    loc_ = sc.get("location")
+    if fmt == "xml" and loc_ and loc_.get("env") and loc_["env"].get("time"):
+        loc_["env"]["time"] = tuple(loc_["env"]["time"][:2])      # the XML format stores the time of day only (xs:time); protobuf has fields for the date
     for pp in (s["pps"] or {}).values():
         pp["initial_state"] = _norm_state(pp["initial_state"], initial=True)
         pp["goal"]["states"] = [_norm_state(x) for x in pp["goal"]["states"]]
